@@ -38,7 +38,7 @@ PROOF_FAILURE_PATTERNS = (
     "could not prove termination", "might not be allowed", "unable to prove", "fails to satisfy",
 )
 LOG_MACROS = ("trace", "debug", "info", "warn", "error")
-SUBST_KINDS = ("closure-contract", "std-wrap", "std-wrap-all", "verus-syntax", "split-or-guard", "for-ghost-iter", "assoc-type", "eta-ctor", "enumerate-iter-mut", "enumerate-iter", "name-impl-trait")
+SUBST_KINDS = ("closure-contract", "std-wrap", "std-wrap-all", "verus-syntax", "split-or-guard", "for-ghost-iter", "assoc-type", "eta-ctor", "enumerate-iter-mut", "enumerate-iter", "iter-map-collect", "name-impl-trait")
 
 
 class ExtractError(Exception):
@@ -408,6 +408,24 @@ def extract_fn(repo, d, template_text):
             whole = whole[:ms[0].start()] + new + whole[ms[0].end():bo] + lbody2 + whole[bc + 1:]
             sig, body = _resplit(whole)
             tr.append({"kind": kind, "old": rustscan.norm_ws(old), "new": rustscan.norm_ws(new), "element": elem, "rewritten_uses": n_all})
+            continue
+        if kind == "iter-map-collect":
+            # Desugaring of `let X = E.iter().map(|V| F).collect::<Vec<_>>();` into
+            # `let mut X = Vec::new(); for V in IT: E.iter() { X.push(F); }` (trusted rule: map/collect over a slice
+            # iterator builds the vector of F(v) in order). Checked mechanically: both shapes, same X, E, V, F.
+            mo = re.match(r"^let\s+(\w+)\s*=\s*(.+?)\s*\.iter\(\)\s*\.map\(\s*\|\s*(\w+)\s*\|\s*(.+?)\s*\)\s*\.collect::<Vec<_>>\(\);$", rustscan.norm_ws(old), re.S)
+            mn = re.match(r"^let\s+mut\s+(\w+)\s*=\s*Vec::new\(\);\s*for\s+(\w+)\s+in\s+(\w+)\s*:\s*(.+?)\s*\.iter\(\)\s*\{\s*(\w+)\.push\((.+)\);\s*\}$", rustscan.norm_ws(new), re.S)
+            strip = lambda t: re.sub(r"\s+", "", t)
+            if not mo or not mn or mo.group(1) != mn.group(1) or mn.group(5) != mn.group(1) or mo.group(3) != mn.group(2) \
+                    or strip(mo.group(2)) != strip(mn.group(4)) or strip(mo.group(4)) != strip(mn.group(6)):
+                raise ExtractError("iter-map-collect: the two shapes do not correspond")
+            rx, _ = _meta_regex(old)
+            ms = list(re.finditer(rx, whole))
+            if len(ms) != 1:
+                raise ExtractError(f"lost anchor: SUBST iter-map-collect text occurs {len(ms)} times (needs exactly 1): {old[:80]!r}")
+            whole = whole[:ms[0].start()] + new + whole[ms[0].end():]
+            sig, body = _resplit(whole)
+            tr.append({"kind": kind, "old": rustscan.norm_ws(old)[:200], "new": rustscan.norm_ws(new)[:300]})
             continue
         if kind == "enumerate-iter":
             # Desugaring of `for (I, X) in E.iter().enumerate() { BODY }` over a slice / Vec `E` into
